@@ -470,6 +470,68 @@ func netTraceScenario(r *rng, viol func(clause, sig, detail string)) *simResult 
 			"actions": len(g.acts), "max_round": g.maxRound(), "all_decided": decided}}
 }
 
+// split-rounds scenario (no Byzantine message, nothing lost): four equal participants with the same input; before
+// stabilisation the QUALITY votes addressed to one half and the CONVERGE messages between the halves are held back, so
+// PREPAREs split 2-2 and every round ends in COMMIT bottom; when all four have reached round 4 (> the round after which
+// rebroadcast is scheduled ahead of the phase timeout) the held messages are released and the network is timely.  Every
+// participant must still hold an alarm for its phase timeout and decide within the bound.
+func splitRoundsScenario(r *rng, viol func(clause, sig, detail string)) *simResult {
+	n := 4
+	powers := []int64{10, 10, 10, 10}
+	in := mkChain("sr", 1+r.intn(3))
+	inputs := []*gpbft.ECChain{in, in, in, in}
+	delta := time.Duration(1+r.intn(3)) * time.Second
+	cfg := gnetCfg{n: n, powers: powers, byz: make([]bool, n), inputs: inputs, delta: delta}
+	g := newGnet(r, cfg, viol)
+	perm := shuffled(r, n)
+	half := map[int]bool{perm[0]: true, perm[1]: true} // the half that does not hear the QUALITY votes in time
+	g.slow = func(from, to int, msg *gpbft.GMessage) bool {
+		switch msg.Vote.Phase {
+		case gpbft.QUALITY_PHASE:
+			return half[to]
+		case gpbft.CONVERGE_PHASE:
+			return half[from] != half[to]
+		}
+		return false
+	}
+	for i := range g.nodes {
+		g.start(i)
+	}
+	target := uint64(4 + r.intn(2))
+	for k := 0; k < 4000; k++ {
+		g.run(10, nil)
+		all := true
+		for _, nd := range g.nodes {
+			if nd.decided != nil || nd.p.Progress().Round < target {
+				all = false
+			}
+		}
+		if all || g.allDecided() {
+			break
+		}
+	}
+	// release what was held back
+	for _, pm := range g.pool {
+		if pm.ready.After(g.now) {
+			pm.ready = g.now
+		}
+	}
+	g.slow = nil
+	g.stabilised = true
+	roundAtStab := g.maxRound()
+	decided := g.run(60000, nil)
+	g.checkDecisions()
+	dl := false
+	for _, l := range g.log {
+		if strings.HasPrefix(l, "deadlock") {
+			dl = true
+		}
+	}
+	return &simResult{g: g, decided: decided, byzVotes: 0, roundAtStab: roundAtStab, deadlock: dl && !decided, budget: !decided && !dl,
+		desc: map[string]any{"scenario": "PREPAREs split 2-2 for several rounds (QUALITY to one half and CONVERGE between the halves held back), released when all are in round >= 4; no Byzantine message", "nodes": n, "delta": delta.String(),
+			"target_round": target, "input_len": in.Len(), "votes": len(g.votes), "byz_votes": 0, "max_round": g.maxRound(), "all_decided": decided}}
+}
+
 // late-QUALITY scenario (no Byzantine message at all): one member is crash-silent, so EVERY remaining member is needed for a
 // strong quorum; the QUALITY votes addressed to the smallest member arrive just after its QUALITY timeout (it has trimmed
 // its proposal to the base by then); nothing is lost and the network is timely from then on.  The late QUALITY quorum
